@@ -45,10 +45,24 @@ struct Kid {
 }
 
 fn spawn_ctl(ctx: &mut Ctx, dir: &std::path::Path) -> Option<(Popen, Kid)> {
-    spawn_ctl_cfg(ctx, dir, false)
+    spawn_ctl_cfg(ctx, dir, false, 0).map(|(p, k, _)| (p, k))
 }
 
-fn spawn_ctl_cfg(ctx: &mut Ctx, dir: &std::path::Path, own_group: bool) -> Option<(Popen, Kid)> {
+/// Keeps the thread that started a child alive until dropped.
+pub struct Starter(Option<std::sync::mpsc::Sender<()>>, Option<std::thread::JoinHandle<()>>);
+
+impl Drop for Starter {
+    fn drop(&mut self) {
+        drop(self.0.take());
+        if let Some(h) = self.1.take() {
+            let _ = h.join();
+        }
+    }
+}
+
+/// `started_by`: 0 = the thread that goes on to use the handle; 1 = another thread, which stays around for as long as
+/// the returned Starter lives; 2 = another thread, which finishes as soon as the child is started.
+fn spawn_ctl_cfg(ctx: &mut Ctx, dir: &std::path::Path, own_group: bool, started_by: u8) -> Option<(Popen, Kid, Starter)> {
     let fifo = dir.join("ctl.fifo");
     let _ = std::fs::remove_file(&fifo);
     let c = std::ffi::CString::new(fifo.to_string_lossy().as_bytes()).unwrap();
@@ -63,11 +77,34 @@ fn spawn_ctl_cfg(ctx: &mut Ctx, dir: &std::path::Path, own_group: bool) -> Optio
         return None;
     }
     let argv = vec![ctx.vchild.clone().into_os_string(), OsString::from("ctl"), fifo.into_os_string()];
-    let m = run::monitored(|| Popen::create(&argv, PopenConfig { setpgid: own_group, ..Default::default() }));
-    match m.result {
+    let mut starter = Starter(None, None);
+    let result = if started_by == 0 {
+        run::monitored(|| Popen::create(&argv, PopenConfig { setpgid: own_group, ..Default::default() })).result
+    } else {
+        let (tx_res, rx_res) = std::sync::mpsc::channel();
+        let (tx_stay, rx_stay) = std::sync::mpsc::channel::<()>();
+        let stays = started_by == 1;
+        let h = std::thread::spawn(move || {
+            let m = run::monitored(|| Popen::create(&argv, PopenConfig { setpgid: own_group, ..Default::default() }));
+            let _ = tx_res.send(m.result);
+            if stays {
+                // (ends when the Starter is dropped)
+                let _ = rx_stay.recv();
+            }
+        });
+        let r = rx_res.recv().ok().flatten();
+        if stays {
+            starter = Starter(Some(tx_stay), Some(h));
+        } else {
+            drop(tx_stay);
+            let _ = h.join();
+        }
+        r
+    };
+    match result {
         Some(Ok(p)) => {
             let pid = p.pid().unwrap() as i32;
-            Some((p, Kid { pid, fifo_fd: fd }))
+            Some((p, Kid { pid, fifo_fd: fd }, starter))
         }
         _ => {
             unsafe { crate::interpose::real_close(fd) };
@@ -237,11 +274,20 @@ fn run_history(ctx: &mut Ctx, ops: &[Op], exit_how: (u8, u8), fl: &Flags, class:
         }
         ctx.count("children_started_from_a_thread_with_all_signals_blocked", 1);
     }
-    let spawned = spawn_ctl_cfg(ctx, &dir, own_group);
+    // ... and in part of them the child is started by another thread of the caller than the one that uses the handle:
+    // one that stays around, or one that is gone right after (a pool thread that retires) - the child is the
+    // process's, not the thread's
+    let started_by: u8 = if blocked_while_spawning { 0 } else { [0u8, 1, 0, 2][(ops.len() / 2) % 4] };
+    match started_by {
+        1 => ctx.count("children_started_by_another_thread_that_stays", 1),
+        2 => ctx.count("children_started_by_a_thread_that_then_finishes", 1),
+        _ => {}
+    }
+    let spawned = spawn_ctl_cfg(ctx, &dir, own_group, started_by);
     if blocked_while_spawning {
         unsafe { libc::pthread_sigmask(libc::SIG_SETMASK, &old_mask, std::ptr::null_mut()) };
     }
-    let (mut p, kid) = match spawned {
+    let (mut p, kid, _starter) = match spawned {
         Some(x) => x,
         None => {
             ctx.inconclusive("could not start the controlled child", J::Null);
@@ -630,7 +676,52 @@ pub fn run(ctx: &mut Ctx, fl: Flags) {
     ctx.count("children_that_really_dumped_core(kernel CLD_DUMPED seen by the monitor)", CORES_DUMPED.load(std::sync::atomic::Ordering::SeqCst) as i64);
 }
 
+/// fork() itself fails (process limit, memory): there is no child, so there is no handle - and nothing that could be
+/// signalled or waited for.  Should a handle come back all the same, its operations are run under the monitor (signals
+/// to process sets are logged, not carried out) and every system call they make is about something that is not a child
+/// of this launch.
+fn fork_fails(ctx: &mut Ctx, fl: &Flags, i: u64) {
+    run::begin_case();
+    let errno = [libc::EAGAIN, libc::ENOMEM][(i % 2) as usize];
+    crate::plan::add(crate::plan::Rule { kind: k::FORK, scope: crate::plan::SCOPE_PARENT, nth: 0, fd: -1, act: crate::plan::ACT_FAIL, val: errno as i64, prob: 1000 });
+    let argv = vec![ctx.vchild.clone().into_os_string(), OsString::from("exit"), OsString::from("0")];
+    let cfg = match (i / 2) % 3 {
+        0 => PopenConfig::default(),
+        1 => PopenConfig { stdout: subprocess::Redirection::Pipe, ..Default::default() },
+        _ => PopenConfig { detached: true, ..Default::default() },
+    };
+    let m = run::monitored(|| Popen::create(&argv, cfg));
+    ctx.count("launches_whose_fork_fails", 1);
+    ctx.distinct(&format!("forkfails|{}|{}", errno, (i / 2) % 3));
+    match m.result {
+        Some(Err(_)) => ctx.count("fork_failures_reported_as_errors", 1),
+        None => viol(ctx, fl.c09, "C09/fork-fails/panic", "Popen::create panicked when fork() failed", J::s(m.panic.as_deref().unwrap_or(""))),
+        Some(Ok(mut p)) => {
+            let pid_text = format!("{:?}", p.pid());
+            let m2 = run::monitored(move || {
+                let t = p.terminate().map_err(|e| e.to_string());
+                let kl = p.kill().map_err(|e| e.to_string());
+                let polled = p.poll();
+                let w = p.wait_timeout(std::time::Duration::from_millis(0)).map_err(|e| e.to_string());
+                p.detach();
+                format!("poll -> {:?}, terminate -> {:?}, kill -> {:?}, wait_timeout(0) -> {:?}", polled, t, kl, w)
+            });
+            let evs = m2.events();
+            let calls: Vec<String> = evs.iter().filter(|e| e.child == 0 && matches!(e.kind, k::KILL | k::KILLPG | k::TGKILL | k::WAIT4 | k::WAITID)).map(ilog::fmt_ev).collect();
+            let w = J::obj().set("fork_errno", J::s(&crate::spawn::errno_name(errno))).set("pid_of_the_handle", J::s(&pid_text)).set("operations", J::s(&format!("{:?}", m2.result))).set("system_calls", J::arr_s(&calls));
+            viol(ctx, fl.c09, "C09/fork-fails/handle-without-a-child", "fork() failed, yet a handle came back: whatever it reports is not the status of a child of this launch", w.clone());
+            if calls.iter().any(|c| c.starts_with("kill")) {
+                viol(ctx, fl.c10, "C10/fork-fails/signal-to-something-that-is-not-the-child", "fork() failed, yet a handle came back, and its terminate()/kill() signalled something that is not a child of this launch (a pid of -1 means every process the caller may signal)", w);
+            } else {
+                viol(ctx, fl.c10, "C10/fork-fails/handle-without-a-child", "fork() failed, yet a handle came back", w);
+            }
+        }
+    }
+    run::end_case();
+}
+
 fn run_inner(ctx: &mut Ctx, fl: Flags) {
+    ctx.family("fork-fails", 24, |ctx, _rng, i| fork_fails(ctx, &fl, i));
     // every exit code
     ctx.family("codes", 256, |ctx, rng, i| {
         let ops = match rng.below(4) {
